@@ -14,6 +14,7 @@ import (
 // with a done context it returns. At the end every handler returns; then nothing of the connection may be left.
 
 type c10Base struct {
+	dl      bool // the openers / requests carry GRPC-Timeout 1S and the clock is advanced past it (spec-only cases)
 	nu, ns  int
 	mode    string // recv | send | await | gate | respond
 	trigger string // failread | wfail | stop
@@ -22,12 +23,17 @@ type c10Base struct {
 
 func c10BaseActs(b c10Base) []SAct {
 	var acts []SAct
+	tmo := ""
+	if b.dl {
+		tmo = "1S"
+	}
+	defer func() {}()
 	for i := 0; i < b.ns; i++ {
 		m := []string{mBidi, mCStr, mSStr}[i%3]
-		acts = append(acts, SAct{Op: "deliver", F: &FrameSpec{Id: uint64(1 + i), Hdr: "ok:0", Method: m, Src: "src", Dst: "dst"}})
+		acts = append(acts, SAct{Op: "deliver", F: &FrameSpec{Id: uint64(1 + i), Hdr: "ok:0", Method: m, Src: "src", Dst: "dst", Timeout: tmo}})
 	}
 	for i := 0; i < b.nu; i++ {
-		acts = append(acts, SAct{Op: "deliver", F: &FrameSpec{Id: uint64(21 + i), Hdr: "ok:0", Method: mUnary, Src: "src", Dst: "dst", Body: i64(int64(100 + i))}})
+		acts = append(acts, SAct{Op: "deliver", F: &FrameSpec{Id: uint64(21 + i), Hdr: "ok:0", Method: mUnary, Src: "src", Dst: "dst", Body: i64(int64(100 + i)), Timeout: tmo}})
 	}
 	// handler indices: streams 0..ns-1, then the unary handlers that found a worker
 	nuRun := b.nu
@@ -88,12 +94,16 @@ func c10BaseActs(b c10Base) []SAct {
 		}
 	case "gate":
 	}
+	if b.dl {
+		// the deadlines pass while the handlers are busy / parked
+		acts = append(acts, SAct{Op: "tick", D: 2000})
+	}
 	return acts
 }
 
 func c10Trigger(kind string) SAct {
 	switch kind {
-	case "failread":
+	case "failread", "failread-behind":
 		return SAct{Op: "failread"}
 	case "wfail":
 		return SAct{Op: "wfail", On: true}
@@ -111,6 +121,11 @@ func c10Script(b c10Base) func(r *svRig, step int) *SAct {
 	pos := b.pos
 	if pos > len(base) {
 		pos = len(base)
+	}
+	base = append([]SAct{}, base...)
+	if b.trigger == "failread-behind" && pos > 0 && base[pos-1].Op == "deliver" {
+		// the read failure is queued directly behind the envelope: no quiescent point in between
+		base[pos-1].NoWait = true
 	}
 	seq := append(append(append([]SAct{}, base[:pos]...), c10Trigger(b.trigger)), base[pos:]...)
 	i := 0
@@ -178,6 +193,7 @@ func TestC10(t *testing.T) {
 	em := NewEmitter()
 	defer em.Close()
 	idx := 0
+	specOnly := false
 	run := func(b c10Base, extra ...string) {
 		if !want(idx) {
 			idx++
@@ -191,7 +207,7 @@ func TestC10(t *testing.T) {
 			tags = append(tags, "leaked-at-end")
 		}
 		em.Emit(Rec{Idx: idx, Kind: "c10", Desc: map[string]any{"base": b.mode, "nu": b.nu, "ns": b.ns, "trigger": b.trigger, "pos": b.pos, "acts": res.Acts},
-			Obs: res.Obs, Tags: tags, Coq: "C10Run (" + svCase(res) + ")"})
+			Obs: res.Obs, Tags: tags, Coq: map[bool]string{false: "C10Run (", true: "C10Spec ("}[specOnly] + svCase(res) + ")"})
 		em.Marker("end", idx)
 		idx++
 	}
@@ -202,7 +218,7 @@ func TestC10(t *testing.T) {
 	for nu := 0; nu <= maxH; nu++ {
 		for ns := 0; ns <= maxH; ns++ {
 			for _, mode := range []string{"recv", "send", "await", "gate", "respond", "rstpark", "fwdpark"} {
-				trigs := []string{"failread", "wfail", "stop"}
+				trigs := []string{"failread", "wfail", "stop", "failread-behind"}
 				if mode == "respond" || mode == "send" {
 					trigs = append(trigs, "wfail:deadline", "wfail:canceled", "wfail:eof")
 				}
@@ -215,6 +231,24 @@ func TestC10(t *testing.T) {
 			}
 		}
 	}
+	// request deadlines (GRPC-Timeout 1S on every opener / request) that expire while the handlers are busy, parked in
+	// SendMsg on a peer that stopped reading, or parked in RecvMsg; trigger at every position (before and after the
+	// deadlines pass). Deadlines are outside the model: property predicates only.
+	specOnly = true
+	for nu := 0; nu <= 1; nu++ {
+		for ns := 1; ns <= 2; ns++ {
+			for _, mode := range []string{"gate", "send", "recv", "respond"} {
+				for _, trig := range []string{"failread", "wfail", "stop", "failread-behind"} {
+					n := len(c10BaseActs(c10Base{dl: true, nu: nu, ns: ns, mode: mode}))
+					for pos := 0; pos <= n; pos++ {
+						run(c10Base{dl: true, nu: nu, ns: ns, mode: mode, trigger: trig, pos: pos}, "deadline")
+					}
+				}
+			}
+		}
+	}
+	specOnly = false
+
 	// many handlers: all workers busy (8), a 9th request parks the read loop
 	big := [][2]int{{8, 1}, {9, 0}, {9, 2}}
 	if thorough() {
